@@ -40,6 +40,10 @@ LEVEL_TEXT = "Seeded exploration of hostile request sessions over generated prog
 
 BAD_VERSIONS = ["3", 3.5, None, [], {}, 0, 4, -1, 777, True, "absent", 2 ** 80, 1e308]
 NONJSON = ["", "{", "{\"version\": 3", "hello", "[1,2", "\x00\x01", "{'version': 3}", "nul", "{\"version\":3,}", "  ", "{\"version\": 3} trailing"]
+# lines that are not even text: invalid UTF-8, a multi-byte character cut by the end of the line
+NONTEXT = [b"\xff\xfe garbage", b"\x80", b'{"version": 3, \xc3}', b'{"version":3,"set":{"X":"\xc3', b"\xed\xa0\xbd"]
+PIPES = [["strict", "utf-8"], ["strict", "utf-8"], ["strict", "utf-8"], ["surrogateescape", "utf-8"], ["strict", "ascii"], ["strict", "latin-1"],
+         ["strict", "cp1252"]]
 JSON_NONOBJECT = ["[]", "3", "\"x\"", "null", "true", "[{\"version\": 3}]"]
 ANY = [None, True, False, 0, -1, 2 ** 80, -2 ** 80, 1e308, -0.0, 2.5, "", "x", [], [1, [2]], {}, {"a": {"b": 1}}]
 
@@ -65,7 +69,7 @@ def generate(r, tier):
         elif k < 0.55:
             lines.append({"raw": r.choice(NONJSON)})
         elif k < 0.60:
-            lines.append({"raw": r.choice(NONJSON)})
+            lines.append({"rawhex": r.choice(NONTEXT).hex()} if r.random() < 0.5 else {"raw": r.choice(NONJSON)})
         elif k < 0.70:
             d = dict(d)
             d["version"] = r.choice(BAD_VERSIONS)
@@ -84,13 +88,14 @@ def generate(r, tier):
             lines.append({"reset": r.choice([["all", "X"], [r.choice(ANY)], r.choice(ANY), ["-"], [names[0] if names else "A", {"menu": 0}]])})
     # file faults
     for d in lines:
-        if "raw" in d:
+        if "raw" in d or "rawhex" in d:
             continue
         for key in ("load", "save"):
             if key in d and r.random() < 0.3:
                 d[key] = r.choice([["missing"], ["dir"], ["hand", 99]] + ([["eacces-r"]] if key == "load" else [["eacces-w"], ["enospc"]]))
     sc["lines"] = lines
     sc["bad_file"] = r.random() < 0.3  # hand_99: invalid UTF-8
+    sc["pipes"] = r.choice(PIPES)  # (stdin error handler, stdout encoding) of the deployment
     return sc
 
 
@@ -99,6 +104,8 @@ summarize = c14.summarize
 
 def _offending(k, desc, version, sb):
     """(whole_request_offending, cleaned descriptor or None) for the LAST line.  Conservative table (DESIGN.md C15)."""
+    if "rawhex" in desc:
+        return True, None  # not text, hence not JSON (every generated byte line stays non-JSON under any error handler)
     if "raw" in desc:
         try:
             obj = json.loads(desc["raw"])
@@ -229,7 +236,7 @@ def _run(sc, ctx, sb, lines, judge):
         with builtins.open(os.path.join(sb, "hand_99"), "wb") as f:
             f.write(b"CONFIG_A=\xff\xfe\n\x80abc")
     version = sc["version"]
-    sess = simpipe.Session(kpath, sdk, rn, version=version, parser=sc["parser"], policy=sc.get("policy"))
+    sess = simpipe.Session(kpath, sdk, rn, version=version, parser=sc["parser"], policy=sc.get("policy"), pipes=sc.get("pipes"))
     state = {"menu_ids": []}
 
     def next_line(s, i):
@@ -337,8 +344,12 @@ def execute(sc, ctx):
 
 def reductions(sc):
     yield from common.list_reductions(sc, "lines")
+    if sc.get("pipes") and sc["pipes"] != ["strict", "utf-8"]:
+        c = copy.deepcopy(sc)
+        c["pipes"] = ["strict", "utf-8"]
+        yield c
     for i, d in enumerate(sc["lines"]):
-        if "raw" in d:
+        if "raw" in d or "rawhex" in d:
             continue
         if isinstance(d.get("set"), dict) and len(d["set"]) > 1:
             for key in list(d["set"]):
